@@ -22,7 +22,7 @@ import os
 import random
 import shutil
 
-from vmon import gen, harness as H, invariants as I
+from vmon import commitmon, gen, harness as H, invariants as I
 from vmon.checks import c04
 
 PROPERTY = "C11"
@@ -61,15 +61,42 @@ def executed(build):
     return out
 
 
+class NeedAtDispatch(commitmon.CommitMonitor):
+    """Records, for every step whose command is dispatched, whether it was required by the
+    definitions in the tables of the dispatching commit (a step can stop being required later in
+    the same build, e.g. when the step that defined its consumer is made pending)."""
+
+    def __init__(self):
+        super().__init__(checkers=[self.checker])
+        self.needed = {}
+
+    def checker(self, mon, prev, snap, tx):
+        if snap is None or prev is None or not tx.is_pop:
+            return
+        for i, st in snap["step"].items():
+            old = prev["step"].get(i)
+            if old is not None and old["state"] == I.P and st["state"] == I.R:
+                model = I.Model(snap, override_state={i: I.P})
+                lab = snap["node"][i][1]
+                self.needed[lab] = self.needed.get(lab, False) or model.implied(i) > model.threshold
+
+
 def run_case(case):
     rng = random.Random(case["seed"])
-    counters = dict.fromkeys(["evaluations", "skipped_unsuccessful", "history_builds"] + REQUIRED_COUNTERS, 0)
+    counters = dict.fromkeys(["evaluations", "skipped_unsuccessful", "history_builds",
+                              "needed_only_when_dispatched"] + REQUIRED_COUNTERS, 0)
     violations = []
     nontrivial = []
 
     def vio(mechanism, message, witness):
         if sum(1 for v in violations if v["mechanism"] == mechanism) < 2:
             violations.append({"mechanism": mechanism, "message": message, "witness": witness})
+
+    def build_with_monitor(cfg, env):
+        mon = NeedAtDispatch()
+        b = H.run_build(cfg, monitors=[mon], env=env)
+        b.needed_at_dispatch = mon.needed
+        return b
 
     def check_build(label, build, cfg, witness, fresh):
         targets = list(cfg.get("targets", []))
@@ -86,16 +113,28 @@ def run_case(case):
             counters["skipped_unsuccessful"] += 1
             return
         counters["evaluations"] += 1
+        at_dispatch = getattr(build, "needed_at_dispatch", {})
+
+        def really_extra(labels):
+            out = []
+            for lab in labels:
+                if at_dispatch.get(lab):
+                    # required when its command was dispatched, no longer required in the end
+                    counters["needed_only_when_dispatched"] += 1
+                else:
+                    out.append(lab)
+            return out
+
         if fresh:
-            if set(ex) != req:
-                extra = sorted(set(ex) - req)
+            if set(ex) != req and (really_extra(set(ex) - req) or req - set(ex)):
+                extra = sorted(really_extra(set(ex) - req))
                 missing = sorted(req - set(ex))
                 mech = "step executed although it is not needed" if extra else \
                     "needed step was not executed"
                 vio(mech, f"{label}: targets={targets + tdirs} executed-not-needed={[s[:90] for s in extra]} "
                     f"needed-not-executed={[s[:90] for s in missing]}", witness)
         else:
-            extra = sorted(set(ex) - req)
+            extra = sorted(really_extra(set(ex) - req))
             if extra:
                 vio("step executed although it is not needed",
                     f"{label} (resumed): targets={targets + tdirs} executed-not-needed={[s[:90] for s in extra]}",
@@ -161,7 +200,7 @@ def run_case(case):
             # 1. from scratch, no targets
             gen.render(spec)
             cfg = {"njob": rng.choice([1, 2, 3]), "resources": RESOURCES}
-            b = H.run_build(cfg, env=env)
+            b = build_with_monitor(cfg, env)
             counters["scratch_builds"] += 1
             check_build(f"{case['id']}/{sub} scratch", b, cfg, witness, fresh=True)
             # 2. resumed with targets on the same database
@@ -176,11 +215,11 @@ def run_case(case):
             # change something so that steps have work to do
             src = sorted(p for p in spec["sources"] if p.startswith("src/"))
             H.write_file(src[0], open(src[0]).read().replace("v0", "v1") + "x\n")
-            b = H.run_build(tcfg, env=env)
+            b = build_with_monitor(tcfg, env)
             counters["resumed_builds"] += 1
             check_build(f"{case['id']}/{sub} resumed-with-targets", b, tcfg, witness, fresh=False)
             # 3. resumed without targets
-            b = H.run_build(cfg, env=env)
+            b = build_with_monitor(cfg, env)
             counters["resumed_builds"] += 1
             check_build(f"{case['id']}/{sub} resumed-unrestricted", b, cfg, witness, fresh=False)
             # 3b. an edit history on the same database: plan edits (dropped, re-added, redefined
@@ -199,14 +238,14 @@ def run_case(case):
                         edits.append([kind_, desc])
                 files = gen.render(cur, previous=files)
                 hw = {"case": case["id"], "spec": spec, "edits": edits, "final": cur}
-                b = H.run_build(cfg, env=dict(cur.get("env", {})))
+                b = build_with_monitor(cfg, dict(cur.get("env", {})))
                 counters["history_builds"] += 1
                 check_build(f"{case['id']}/{sub} after edits {edits}", b, cfg, hw, fresh=False)
             # 4. from scratch with targets
             gen.render(spec, previous=files)
             shutil.rmtree(".stepup", ignore_errors=True)
             shutil.rmtree("out", ignore_errors=True)
-            b = H.run_build(tcfg, env=env)
+            b = build_with_monitor(tcfg, env)
             counters["target_builds"] += 1
             check_build(f"{case['id']}/{sub} scratch-with-targets", b, tcfg, witness, fresh=True)
         finally:
